@@ -34,10 +34,17 @@ package tcc
 //@   ensures true
 //@ ext github.com/dubbogo/gost/net.GetLocalIP
 //@   ensures true
+// application data that cannot be decoded never yields a context: the user's commit / rollback is not
+// run on an invented (empty) action context and no phase-two status is answered for it (the function
+// panics instead, which the processors do not turn into a reply). encoding/json is the environment.
+//@ extlocal encoding/json.Unmarshal
+//@   modifies *v.(*map[string]interface{})
+//@   ensures true
 //@ func (*TCCResourceManager).getBusinessActionContext
-//@   trusted
+//@   prop C05
 //@   may_panic
 //@   ensures result != nil && result.Xid == xid && result.BranchId == branchID && result.ActionName == resourceID
+//@   ensures only-from-decodable-data: len(applicationData) > 0 ==> called("Unmarshal#1") && callres("Unmarshal#1", 0) == nil
 
 //@ func (*TCCServiceProxy).registeBranch
 //@   prop C05
